@@ -65,9 +65,16 @@ class ModbusTcpProtocol(protocol.Protocol):
         if not self.factory.control.ListenOnly:
             units = self.factory.store.slaves()
             single = self.factory.store.single
-            self.framer.processIncomingPacket(data, self._execute,
-                                              single=single,
-                                              unit=units)
+            try:
+                self.framer.processIncomingPacket(data, self._execute,
+                                                  single=single,
+                                                  unit=units)
+            except Exception as ex:
+                # a malformed request: drop the connection, as the other
+                # front ends do, instead of raising into the reactor
+                _logger.debug("Unable to process request: %s" % ex)
+                self.framer.resetFrame()
+                self.transport.loseConnection()
 
     def _execute(self, request):
         """ Executes the request and returns the result
@@ -177,8 +184,13 @@ class ModbusUdpProtocol(protocol.DatagramProtocol):
             continuation = lambda request: self._execute(request, addr)
             units = self.store.slaves()
             single = self.store.single
-            self.framer.processIncomingPacket(data, continuation,
-                                              single=single, unit=units)
+            try:
+                self.framer.processIncomingPacket(data, continuation,
+                                                  single=single, unit=units)
+            except Exception as ex:
+                # a malformed datagram: discard it
+                _logger.debug("Unable to process request: %s" % ex)
+                self.framer.resetFrame()
 
     def _execute(self, request, addr):
         """ Executes the request and returns the result
